@@ -8,6 +8,7 @@ P = {'id': 'C19',
               'mv_sync_crash_safe',
               'mv_history_crash_safe',
               'crash_compose',
+              'puts_history_crash_safe',
               'replace_crash_safe',
               'mv_set_len_safe',
               'ro_roundtrip',
